@@ -71,6 +71,11 @@ MUTANTS = [
     ("R13", "dotnet: JsonProperty attribute emitted after DataMember", [("generator/plugins/dotnet/dotnet_classes.py", "        + (\n            [\"[JsonProperty(NullValueHandling = NullValueHandling.Ignore)]\"]\n            if optional and not special_optional\n            else []\n        )\n        + [\n            f'[DataMember(Name = \"{prop_def.name}\")]',\n        ]", "        + [\n            f'[DataMember(Name = \"{prop_def.name}\")]',\n        ]\n        + (\n            [\"[JsonProperty(NullValueHandling = NullValueHandling.Ignore)]\"]\n            if optional and not special_optional\n            else []\n        )")], ["C08", "C06"], "silent"),
     ("R14", "testdata: one more (correctly labelled) id variant", [("generator/plugins/testdata/testdata_generator.py", '    for id_value in [1, LSP_MAX_INT, LSP_MIN_INT, "string-id-1"]:\n        yield True, {"jsonrpc": "2.0", "id": id_value, "method": method}', '    for id_value in [1, LSP_MAX_INT, LSP_MIN_INT, "string-id-1", -1, ""]:\n        yield True, {"jsonrpc": "2.0", "id": id_value, "method": method}')], ["C17", "C06"], "silent"),
     ("R15", "python plugin annotates string literals as Literal[...] (types.py regenerated)", [(PU, "            # TODO: Use this with python >= 3.8\n            # return f\"Literal['{type_def.value}']\"\n            return \"str\"", "            return f\"Literal['{type_def.value}']\"")], ["C04", "C05", "C01", "C02", "C10", "C11"], "silent", "regen-python"),
+    ("R17", "python plugin emits the optional attributes of a class sorted by name (types.py regenerated)", [(PU, "        ] + [p for p in properties if p.optional or p.type.kind == \"stringLiteral\"]", "        ] + sorted([p for p in properties if p.optional or p.type.kind == \"stringLiteral\"], key=lambda p: p.name)")], ["C04", "C05", "C01", "C02", "C03", "C10", "C12", "C09"], "silent", "regen-python"),
+    ("R18", "location hook looks at all elements for targetUri", [(H, '            if "targetUri" in object_[0]:', '            if any("targetUri" in item for item in object_):')], ["C01", "C03", "C14", "C15", "C19"], "silent"),
+    ("R21", "dotnet: using directives emitted in reverse (still deterministic) order", [("generator/plugins/dotnet/dotnet_helpers.py", "    return sorted(list(set(usings)))", "    return sorted(set(usings), reverse=True)")], ["C08", "C16", "C06"], "silent"),
+    ("R23", "schema validation through an explicit Draft7Validator", [("generator/__main__.py", "        jsonschema.validate(json_model, schema)", "        jsonschema.Draft7Validator(schema).validate(json_model)")], ["C18", "C05"], "silent"),
+    ("R24", "model nodes compared through a shared helper", [("generator/model.py", "    def __eq__(self, other: Any) -> bool:\n        if isinstance(other, EnumItem):\n            return self.name == other.name and self.value == other.value\n        return False", "    def __eq__(self, other: Any) -> bool:\n        return isinstance(other, EnumItem) and (self.name, self.value) == (other.name, other.value)")], ["C18"], "silent"),
     ("R06", "model merge written with +=", [("generator/model.py", "            spec.structures.extend(addition.structures)", "            spec.structures += addition.structures")], ["C18", "C05"], "silent"),
 ]
 
